@@ -127,7 +127,10 @@ def reported_under(ctx: Ctx, fn: Func, asg: dict[str, bool], classify, extra_rep
                     tg = m.ast.targets if isinstance(m.ast, ast.Assign) else [m.ast.target]
                     if any(isinstance(t, ast.Name) and t.id == e.id for t in tg) and m.ast.value is not None:
                         defs.append(m)
-            for m in defs:
+            nonnull = [m for m in defs if not (isinstance(m.ast.value, ast.Constant) and m.ast.value.value is None)]
+            for m in (nonnull or defs):
+                # a `x = None` initialisation next to real definitions is the "nothing selected" case, which the
+                # path-sensitive walk keeps away from the use
                 add(m.ast.value, depth + 1)
             if e.id in fn.param_names():
                 # the parameter itself still reaches a report on a path that passes none of the re-definitions
@@ -254,7 +257,9 @@ def run(ctx: Ctx) -> None:
     expl = [n for n in own_nodes(eip.node) if isinstance(n, ast.Assign) and isinstance(n.value, ast.Call) and isinstance(n.value.func, ast.Attribute) and n.value.func.attr == "decode"]
     ctx.ob("C04.R1", eip, "explanation = error frame without its status byte", len(expl) == 1 and norm(expl[0].value) == f"{ep}[1:].decode()", f"{[norm(e.value) for e in expl]}")
     rep = [c for c in own_nodes(eip.node) if isinstance(c, ast.Call) and isinstance(c.func, ast.Attribute) and c.func.attr == "_handle_error_and_close"]
-    ctx.ob("C04.R2", eip, "error frame is reported and the helper closed on every path", len(rep) == 1 and _on_every_path(ctx, eip, rep[0]), "")
+    geip = cfg_of(ctx, eip)
+    rep_nodes_e = [n for n in geip.reachable() if any(c in rep for c in node_calls(n))]
+    ctx.ob("C04.R2", eip, "error frame is reported and the helper closed on every path", bool(rep_nodes_e) and geip.exit not in walk(geip, {}, lambda n: None, blocked=set(rep_nodes_e)), f"{len(rep)} report call(s)")
     # -- _handle_error mapping
     he = noise.methods["_handle_error"]
     xp = [p for p in he.param_names() if p != "self"][0]
@@ -279,7 +284,14 @@ def run(ctx: Ctx) -> None:
         classes, may, mst, _ = reported_under(ctx, he, asg, cl_he)
         ctx.ob("C04.R1", he, f"... only while the state is HELLO: {what} is reported unchanged", classes == {f"<param {xp}>"} and mst, f"reports {sorted(classes)}")
     causes = [n for n in own_nodes(he.node) if isinstance(n, ast.Assign) and any(norm(t).endswith(".__cause__") for t in n.targets)]
-    ctx.ob("C04.R1", he, "mapped errors keep their cause", len(causes) >= 2 and all(norm(c.value) in (xp, "original_exc") or isinstance(c.value, ast.Name) for c in causes), f"{len(causes)} __cause__ assignments")
+    # every mapped (newly constructed) error gets the original as its cause: on each mapping path a __cause__ store
+    ghe = cfg_of(ctx, he)
+    cause_nodes = [n for n in ghe.reachable() if n.ast in causes]
+    okc = bool(causes) and all(isinstance(c.value, ast.Name) for c in causes)
+    for asg in ({"invalid_tag": True, "reset": False}, {"invalid_tag": False, "reset": True, "in_hello": True}):
+        avoid = walk(ghe, asg, cl_he, blocked=set(cause_nodes))
+        okc = okc and ghe.exit not in avoid
+    ctx.ob("C04.R1", he, "mapped errors keep their cause", okc, f"{len(causes)} __cause__ assignments")
     sup = [c for c in own_nodes(he.node) if isinstance(c, ast.Call) and isinstance(c.func, ast.Attribute) and c.func.attr == "_handle_error" and norm(c.func.value) == "super()"]
     ctx.ob("C04.R2", he, "mapped exception is what gets reported (base handler called with it on every path)", len(sup) == 1 and [norm(a) for a in sup[0].args] == [xp] and _on_every_path(ctx, he, sup[0]), f"{[norm(a) for c in sup for a in c.args]}")
     # -- closed
